@@ -43,7 +43,7 @@ def main():
         mod = importlib.import_module("props." + a.prop.lower())
         mod.run(ctx)
     except BaseException as exc:
-        if isinstance(exc, (KeyboardInterrupt, SystemExit)):
+        if isinstance(exc, (KeyboardInterrupt, SystemExit)) and not hasattr(exc, "tag"):
             raise
         # (BaseException: an `asyncio.CancelledError` that leaks out of the library is not an `Exception`)
         # The harness drives the library through its public API; an exception that escapes here means the
